@@ -172,7 +172,7 @@ func reifyInto(opts *options, to reflect.Value, from *Config) Error {
 	// zero value of Config, as created when handling it like any other struct,
 	// is not.
 	if to.Kind() == reflect.Ptr && to.IsNil() && to.CanSet() {
-		if baseType := chaseTypePointers(to.Type()); baseType.Kind() == reflect.Struct && tConfig.ConvertibleTo(baseType) {
+		if baseType := chaseTypePointers(to.Type()); isConfigType(baseType) {
 			cfg := reflect.ValueOf(New()).Convert(reflect.PtrTo(baseType))
 			to.Set(pointerize(to.Type(), baseType, cfg))
 			to = chaseValuePointers(to)
@@ -403,7 +403,7 @@ func reifyValue(
 	}
 
 	baseType := chaseTypePointers(t)
-	if tConfig.ConvertibleTo(baseType) {
+	if isConfigType(baseType) {
 		cfg, err := val.toConfig(opts.opts)
 		if err != nil {
 			return reflect.Value{}, raiseExpectedObject(opts.opts, val)
@@ -483,7 +483,7 @@ func reifyMergeValue(
 
 	baseType := chaseTypePointers(old.Type())
 
-	if tConfig.ConvertibleTo(baseType) {
+	if isConfigType(baseType) {
 		sub, err := val.toConfig(opts.opts)
 		if err != nil {
 			return reflect.Value{}, raiseExpectedObject(opts.opts, val)
@@ -547,6 +547,13 @@ func reifyMergeValue(
 	}
 
 	return reifyPrimitive(opts, val, t, baseType)
+}
+
+// isConfigType checks if t is Config or a type Config can be rebranded to.
+// Any type is convertible to an interface type, which must not be mistaken
+// for a Config.
+func isConfigType(t reflect.Type) bool {
+	return t.Kind() == reflect.Struct && tConfig.ConvertibleTo(t)
 }
 
 func mergeFieldConfig(opts fieldOptions, to, from *Config) Error {
